@@ -52,6 +52,9 @@ mod explore {
         violations: Vec<(String, String, String)>,
         max_devs: usize,
         capped: Vec<String>,
+        /// wall-clock budget of this explorer process (a capped run reports what it completed and is not called exhaustive)
+        deadline: Instant,
+        timed_out: bool,
     }
 
     fn run(inp: &PInput, prefix: &[usize]) -> (Digest, Vec<ChoicePoint>, Vec<usize>, Option<String>) {
@@ -82,7 +85,12 @@ mod explore {
 
     #[allow(clippy::too_many_arguments)]
     fn dfs(inp_idx: usize, inp: &PInput, reference: &Digest, prefix: Vec<usize>, allowed: &dyn Fn(&ChoicePoint, usize) -> bool, st: &mut Stats, cap: u64, mode: &str) {
-        if st.executions >= cap {
+        if st.executions >= cap || st.timed_out {
+            return;
+        }
+        if Instant::now() >= st.deadline {
+            st.timed_out = true;
+            st.capped.push(format!("input {}: wall-clock budget of the explorer process exhausted after {} executions ({})", inp_idx, st.executions, mode));
             return;
         }
         let r = std::panic::catch_unwind(std::panic::AssertUnwindSafe(|| run(inp, &prefix)));
@@ -268,7 +276,7 @@ mod explore {
         std::panic::set_hook(Box::new(|_| {}));
         let seq = parse_digests(&seq_path);
         let inputs = pipeline_inputs();
-        let mut st = Stats { executions: 0, choice_points: 0, regions_seen: 0, outcomes: HashSet::new(), schedules_sig: HashSet::new(), violations: vec![], max_devs: 0, capped: vec![] };
+        let mut st = Stats { executions: 0, choice_points: 0, regions_seen: 0, outcomes: HashSet::new(), schedules_sig: HashSet::new(), violations: vec![], max_devs: 0, capped: vec![], deadline: Instant::now() + std::time::Duration::from_secs(if thorough { 3000 } else { 75 }), timed_out: false };
         let mut bounds: Vec<String> = vec![];
         let mut samples: Vec<String> = vec![];
         let mut conformance = 0u64;
